@@ -34,9 +34,10 @@ Record dmem := {
   m_maps : list mapping; m_regs : list region;
   m_fsizes : list (N * N); m_fbytes : list (N * N * N);
   m_upd : N; m_ackf : list N; m_evlog : list N;
-  m_log : option (N * N * N) }.            (* the dirty log in force: file, window offset, window length *)
+  m_log : option (N * N * N);
+  m_beq : option (bool * bool * bool) }.   (* the backend-request channel: reply-ack, shared-object, shared-memory settings it got *)            (* the dirty log in force: file, window offset, window length *)
 Definition dmem0 : dmem :=
-  {| m_maps := []; m_regs := []; m_fsizes := []; m_fbytes := []; m_upd := 0; m_ackf := []; m_evlog := []; m_log := None |}.
+  {| m_maps := []; m_regs := []; m_fsizes := []; m_fbytes := []; m_upd := 0; m_ackf := []; m_evlog := []; m_log := None; m_beq := None |}.
 
 Record dstate := {
   d_nq : nat; d_maxq : N; d_features : N; d_pfeatures : N; d_masks : list N;
@@ -184,7 +185,7 @@ Definition h_set_features (s : dstate) (v : N) : dstate * dres :=
     let m := d_mem s2 in
     (set_mem (set_rings s2 rs)
              {| m_maps := m_maps m; m_regs := m_regs m; m_fsizes := m_fsizes m; m_fbytes := m_fbytes m; m_upd := m_upd m;
-                m_ackf := m_ackf m ++ [v]; m_evlog := m_evlog m ++ [if ev then 1 else 0]; m_log := m_log m |}, DOk []).
+                m_ackf := m_ackf m ++ [v]; m_evlog := m_evlog m ++ [if ev then 1 else 0]; m_log := m_log m; m_beq := m_beq m |}, DOk []).
 
 Definition h_reset_device (s : dstate) : dstate * dres :=
   let s1 := enable_all s (d_nq s) 0 false in
@@ -269,10 +270,10 @@ Definition fbyte_of (m : dmem) (f off : N) : N :=
   match find (fun t => (fst (fst t) =? f) && (snd (fst t) =? off)) (m_fbytes m) with Some t => snd t | None => 0 end.
 Definition with_files (m : dmem) (sizes : list (N * N)) (bytes : list (N * N * N)) : dmem :=
   {| m_maps := m_maps m; m_regs := m_regs m; m_fsizes := sizes; m_fbytes := bytes; m_upd := m_upd m;
-     m_ackf := m_ackf m; m_evlog := m_evlog m; m_log := m_log m |}.
+     m_ackf := m_ackf m; m_evlog := m_evlog m; m_log := m_log m; m_beq := m_beq m |}.
 Definition with_table (m : dmem) (maps : list mapping) (regs : list region) : dmem :=
   {| m_maps := maps; m_regs := regs; m_fsizes := m_fsizes m; m_fbytes := m_fbytes m; m_upd := m_upd m + 1;
-     m_ackf := m_ackf m; m_evlog := m_evlog m; m_log := m_log m |}.
+     m_ackf := m_ackf m; m_evlog := m_evlog m; m_log := m_log m; m_beq := m_beq m |}.
 Fixpoint put_bytes (f off : N) (bytes : list N) (acc : list (N * N * N)) : list (N * N * N) :=
   match bytes with
   | [] => acc
@@ -418,7 +419,7 @@ Definition h_rem_mem (s : dstate) (a : list N) : dstate * dres :=
 (* SET_LOG_BASE: map the log window, build one bitmap per current region (each must fit), then install them all *)
 Definition with_logs (m : dmem) (regs : list region) (log : option (N * N * N)) : dmem :=
   {| m_maps := m_maps m; m_regs := regs; m_fsizes := m_fsizes m; m_fbytes := m_fbytes m; m_upd := m_upd m;
-     m_ackf := m_ackf m; m_evlog := m_evlog m; m_log := log |}.
+     m_ackf := m_ackf m; m_evlog := m_evlog m; m_log := log; m_beq := m_beq m |}.
 Definition h_set_log_base (s : dstate) (size off file : N) : dstate * dres :=
   let m := d_mem s in
   if (2 ^ 63 <=? off) || (2 ^ 63 <=? size) then (s, DErr)
@@ -718,6 +719,20 @@ Definition d_apply (s : dstate) (kind : string) (a : list N) (data : list N) (rl
   else if String.eqb kind "read_call" then
     let s0 := hold s q in
     (set_files s0 (set_pending (d_pending s0) q 0) (d_fe_holds s0) (d_next_inst s0), VN (pending_of s0 q))
+  else if String.eqb kind "set_backend_req" then
+    control s (hasd (d_fe_apf s) VhostUserProtocolFeatures_BACKEND_REQ) (hasd (d_rq_acked_proto s) VhostUserProtocolFeatures_BACKEND_REQ) false
+            (fun s => let m := d_mem s in
+                      let p := d_acked_proto s in
+                      (set_mem s {| m_maps := m_maps m; m_regs := m_regs m; m_fsizes := m_fsizes m; m_fbytes := m_fbytes m; m_upd := m_upd m;
+                                    m_ackf := m_ackf m; m_evlog := m_evlog m; m_log := m_log m;
+                                    m_beq := Some (hasd p VhostUserProtocolFeatures_REPLY_ACK, hasd p VhostUserProtocolFeatures_SHARED_OBJECT,
+                                                   hasd p VhostUserProtocolFeatures_SHMEM) |}, DOk []))
+  else if String.eqb kind "proxy_probe" then
+    match m_beq (d_mem s) with
+    | None => (s, VS "no-channel")
+    | Some (ra, sh, shm) =>
+        if (if q =? 0 then sh else shm) then (s, VL [VS "sent"; VN (if ra then 1 else 0)]) else (s, VS "refused")
+    end
   else if String.eqb kind "panics" then (s, VN 0)      (* the model has no panics: every handler is a total function *)
   else if String.eqb kind "backend_log" then
     let m := d_mem s in (s, VL [VN (m_upd m); VL (map VN (m_ackf m)); VL (map VN (m_evlog m)); VN 0])
